@@ -1,0 +1,120 @@
+// SPDX-FileCopyrightText: 2026 The Pion community <https://pion.ly>
+// SPDX-License-Identifier: MIT
+
+//go:build verif && !js
+
+package webrtc
+
+import (
+	"errors"
+	"sync/atomic"
+
+	"github.com/pion/ice/v4"
+	"github.com/pion/logging"
+	"github.com/pion/sdp/v3"
+)
+
+// VerifICECandidateFromICE exposes newICECandidateFromICE (verification hook, C25).
+func VerifICECandidateFromICE(c ice.Candidate, sdpMid string, sdpMLineIndex uint16) (ICECandidate, error) {
+	return newICECandidateFromICE(c, sdpMid, sdpMLineIndex)
+}
+
+// VerifCandidateExtensions returns the unexported extension string of an ICECandidate.
+func VerifCandidateExtensions(c ICECandidate) string {
+	return c.extensions
+}
+
+// VerifCandidateWithExtensions returns a copy of c whose unexported extension string is ext.
+func VerifCandidateWithExtensions(c ICECandidate, ext string) ICECandidate {
+	c.extensions = ext
+
+	return c
+}
+
+// VerifSetExtensions runs setExtensions on a zero ICECandidate and returns the stored string.
+func VerifSetExtensions(ext []ice.CandidateExtension) string {
+	c := ICECandidate{}
+	c.setExtensions(ext)
+
+	return c.extensions
+}
+
+// VerifExportExtensions runs exportExtensions of an ICECandidate holding the extension string ext
+// against cand.
+func VerifExportExtensions(ext string, cand ice.Candidate) error {
+	c := ICECandidate{extensions: ext}
+
+	return c.exportExtensions(cand)
+}
+
+// VerifCandidatePC is a bare PeerConnection holding only what AddICECandidate touches: the two
+// remote descriptions and an ICETransport. With a gatherer, the transport creates a real (never
+// started) agent on first use; without one, ICETransport.AddRemoteCandidate fails with
+// errICEGathererNotStarted before doing anything, which marks "the candidate reached the transport".
+type VerifCandidatePC struct {
+	pc       *PeerConnection
+	gatherer *ICEGatherer
+}
+
+// VerifIsICEGathererNotStarted reports whether err is the transport's "no gatherer" error.
+func VerifIsICEGathererNotStarted(err error) bool {
+	return errors.Is(err, errICEGathererNotStarted)
+}
+
+// NewVerifCandidatePC builds the bare PeerConnection; nil descriptions stay unset.
+func NewVerifCandidatePC(pending, current *sdp.SessionDescription, withGatherer bool) (*VerifCandidatePC, error) {
+	se := SettingEngine{}
+	se.LoggerFactory = &logging.DefaultLoggerFactory{DefaultLogLevel: logging.LogLevelDisabled}
+	se.SetICEMulticastDNSMode(ice.MulticastDNSModeDisabled)
+	se.SetNetworkTypes([]NetworkType{NetworkTypeUDP4, NetworkTypeUDP6, NetworkTypeTCP4, NetworkTypeTCP6})
+	se.DisableActiveTCP(true)
+	api := NewAPI(WithSettingEngine(se))
+	var gatherer *ICEGatherer
+	if withGatherer {
+		var err error
+		if gatherer, err = api.NewICEGatherer(ICEGatherOptions{}); err != nil {
+			return nil, err
+		}
+	}
+	pc := &PeerConnection{
+		isClosed:     &atomic.Bool{},
+		api:          api,
+		log:          se.LoggerFactory.NewLogger("verif"),
+		iceTransport: NewICETransport(gatherer, se.LoggerFactory),
+	}
+	if pending != nil {
+		pc.pendingRemoteDescription = &SessionDescription{Type: SDPTypeOffer, parsed: pending}
+	}
+	if current != nil {
+		pc.currentRemoteDescription = &SessionDescription{Type: SDPTypeAnswer, parsed: current}
+	}
+
+	return &VerifCandidatePC{pc: pc, gatherer: gatherer}, nil
+}
+
+// Add calls PeerConnection.AddICECandidate.
+func (v *VerifCandidatePC) Add(init ICECandidateInit) error {
+	return v.pc.AddICECandidate(init)
+}
+
+// RemoteCandidates returns what the agent currently holds as remote candidates (nil agent: none).
+func (v *VerifCandidatePC) RemoteCandidates() ([]ice.Candidate, error) {
+	if v.gatherer == nil {
+		return nil, nil
+	}
+	agent := v.gatherer.getAgent()
+	if agent == nil {
+		return nil, nil
+	}
+
+	return agent.GetRemoteCandidates()
+}
+
+// Close releases the agent.
+func (v *VerifCandidatePC) Close() error {
+	if v.gatherer == nil {
+		return nil
+	}
+
+	return v.gatherer.Close()
+}
